@@ -52,28 +52,39 @@ cfn("sparse_image.c:sparse_is_sorted", lens={"i": "nnz", "j": "nnz"},
 # ---------------------------------------------------------------- overlaps of two sorted coordinate lists
 SORTED1 = "forall(1, nnz1, lambda t: Or_(i1[t-1] < i1[t], And_(i1[t-1] == i1[t], j1[t-1] < j1[t])))"
 SORTED2 = "forall(1, nnz2, lambda t: Or_(i2[t-1] < i2[t], And_(i2[t-1] == i2[t], j2[t-1] < j2[t])))"
+# strict sortedness for all pairs (what "sorted" means; the adjacent form above follows from it, the converse needs an induction the
+# solver cannot do, so both are stated) and the three invariants of the completeness argument of the two-pointer merge
+GSORTED1 = "forall2(0, nnz1, lambda a, b: implies(a < b, i1[a]*65536 + j1[a] < i1[b]*65536 + j1[b]))"
+GSORTED2 = "forall2(0, nnz2, lambda a, b: implies(a < b, i2[a]*65536 + j2[a] < i2[b]*65536 + j2[b]))"
+OV_I1 = "forall(0, p1, lambda a: forall(p2, nnz2, lambda b: key1(a) < key2(b)))"
+OV_I2 = "forall(0, p2, lambda b: forall(p1, nnz1, lambda a: key2(b) < key1(a)))"
+OV_I3 = "forall(0, %s, lambda a: forall(0, %s, lambda b: implies(key1(a) == key2(b), exists(0, nhit, lambda t: And_(k1[t] == a, k2[t] == b)))))"
 cfn("sparse_image.c:sparse_overlaps",
     lens={"i1": "nnz1", "j1": "nnz1", "k1": "nnz1", "i2": "nnz2", "j2": "nnz2", "k2": "nnz2"},
     defined={"k1": False, "k2": False}, outputs={"k1": "0..nnz1", "k2": "0..nnz2"}, assigns=["k1", "k2"],
-    requires=["nnz1 >= 0", "nnz2 >= 0"] + T("C14", SORTED1, SORTED2),
+    requires=["nnz1 >= 0", "nnz2 >= 0"] + T("C14", SORTED1, SORTED2, GSORTED1, GSORTED2),
     locals={"key1": "lambda t: i1[t]*65536 + j1[t]", "key2": "lambda t: i2[t]*65536 + j2[t]"},
     loops={0: ["0 <= p1", "p1 <= nnz1", "0 <= p2", "p2 <= nnz2", "0 <= nhit", "nhit <= p1", "nhit <= p2", "isdef('nhit')",
                "forall(0, nhit, lambda t: And_(defined(k1, t), defined(k2, t), 0 <= k1[t], k1[t] < p1, 0 <= k2[t], k2[t] < p2))"]
               + T("C14", "forall(0, nhit, lambda t: key1(k1[t]) == key2(k2[t]))",
-                  "forall(0, nhit - 1, lambda t: And_(k1[t] < k1[t+1], k2[t] < k2[t+1]))"),
+                  "forall(0, nhit - 1, lambda t: And_(k1[t] < k1[t+1], k2[t] < k2[t+1]))", OV_I1, OV_I2, OV_I3 % ("p1", "p2")),
            1: ["nhit <= p1", "0 <= nhit", "nhit <= nnz1", "nhit <= nnz2", "forall(0, p1, lambda t: defined(k1, t))",
                "forall(0, nhit, lambda t: And_(defined(k2, t), 0 <= k1[t], k1[t] < nnz1, 0 <= k2[t], k2[t] < nnz2))"]
               + T("C14", "forall(0, nhit, lambda t: key1(k1[t]) == key2(k2[t]))", "forall(nhit, p1, lambda t: k1[t] == 0)",
-                  "forall(0, nhit - 1, lambda t: And_(k1[t] < k1[t+1], k2[t] < k2[t+1]))"),
+                  "forall(0, nhit - 1, lambda t: And_(k1[t] < k1[t+1], k2[t] < k2[t+1]))", OV_I3 % ("nnz1", "nnz2")),
            2: ["nhit <= p2", "0 <= nhit", "nhit <= nnz1", "nhit <= nnz2", "forall(0, nnz1, lambda t: defined(k1, t))", "forall(0, p2, lambda t: defined(k2, t))",
                "forall(0, nhit, lambda t: And_(0 <= k1[t], k1[t] < nnz1, 0 <= k2[t], k2[t] < nnz2))"]
               + T("C14", "forall(0, nhit, lambda t: key1(k1[t]) == key2(k2[t]))", "forall(nhit, nnz1, lambda t: k1[t] == 0)",
-                  "forall(nhit, p2, lambda t: k2[t] == 0)", "forall(0, nhit - 1, lambda t: And_(k1[t] < k1[t+1], k2[t] < k2[t+1]))")},
+                  "forall(nhit, p2, lambda t: k2[t] == 0)", "forall(0, nhit - 1, lambda t: And_(k1[t] < k1[t+1], k2[t] < k2[t+1]))",
+                  OV_I3 % ("nnz1", "nnz2"))},
     ensures=["0 <= result", "result <= nnz1", "result <= nnz2",
              "forall(0, result, lambda t: And_(0 <= k1[t], k1[t] < nnz1, 0 <= k2[t], k2[t] < nnz2))"]
             + T("C14", "forall(0, result, lambda t: key1(k1[t]) == key2(k2[t]))",
                 "forall(0, result - 1, lambda t: And_(k1[t] < k1[t+1], k2[t] < k2[t+1]))",
-                "forall(result, nnz1, lambda t: k1[t] == 0)", "forall(result, nnz2, lambda t: k2[t] == 0)"),
+                "forall(result, nnz1, lambda t: k1[t] == 0)", "forall(result, nnz2, lambda t: k2[t] == 0)",
+                # completeness: every pixel present in both lists is reported
+                "forall(0, nnz1, lambda a: forall(0, nnz2, lambda b: implies(key1(a) == key2(b), "
+                "exists(0, result, lambda t: And_(k1[t] == a, k2[t] == b)))))"),
     props=["C14", "C20"])
 
 cfn("sparse_image.c:coverlaps",
